@@ -276,7 +276,7 @@ func runBenignForThorough(repo, verif string, ruleSpecs []string) map[string]any
 	var results []benignResult
 	var err error
 	// the built-in edits, and the refactorings written by independent sub-agents (verif/benign80/<agent>/<n>/patch.diff)
-	for _, extra := range [][]string{nil, {"-patchdir", filepath.Join(verif, "benign80")}, {"-patchdir", filepath.Join(verif, "benign80b")}, {"-patchdir", filepath.Join(verif, "benign80c")}, {"-patchdir", filepath.Join(verif, "benign80d")}, {"-patchdir", filepath.Join(verif, "benign80e")}, {"-patchdir", filepath.Join(verif, "benign80f")}, {"-patchdir", filepath.Join(verif, "benign80g")}, {"-patchdir", filepath.Join(verif, "benign80h")}} {
+	for _, extra := range [][]string{nil, {"-patchdir", filepath.Join(verif, "benign80")}, {"-patchdir", filepath.Join(verif, "benign80b")}, {"-patchdir", filepath.Join(verif, "benign80c")}, {"-patchdir", filepath.Join(verif, "benign80d")}, {"-patchdir", filepath.Join(verif, "benign80e")}, {"-patchdir", filepath.Join(verif, "benign80f")}, {"-patchdir", filepath.Join(verif, "benign80g")}, {"-patchdir", filepath.Join(verif, "benign80h")}, {"-patchdir", filepath.Join(verif, "benign80i")}} {
 		args := append([]string{"benign", "-repo", repo, "-j", "8", "-json"}, extra...)
 		if extra != nil {
 			if _, e := os.Stat(extra[1]); e != nil {
@@ -329,7 +329,7 @@ func runBenignForThorough(repo, verif string, ruleSpecs []string) map[string]any
 		cnt[st]++
 	}
 	res := map[string]any{
-		"what":  "behaviour-preserving changes of today's sources: 640 refactorings written by independent sub-agents that knew nothing of the checker, in eight rounds (benign80/, benign80b/, benign80c/, benign80d/, benign80e/, benign80f/, benign80g/, benign80h/: inverted conditions with swapped branches, if/else chains turned into switches or early returns, extracted and inlined helpers and locals, range loops for counting loops, renamed receivers and locals, reordered independent statements, loops over written-out tables, clamps as min/max, closures as method values) and 40 built-in edits (renamed locals and receivers, commuted operands, a < b+1 for a <= b, extracted locals, reordered independent statements, reworded messages, an added helper, a deferred unlock in a closure, reordered YAML keys) applied through the overlay: none of the property's rules may report a violation, lose an anchor, fall under its floor or leave more than one instance in ten undecided (what `check` fails on); instances left undecided within that bound are counted separately. Measures the checker only.",
+		"what":  "behaviour-preserving changes of today's sources: 720 refactorings written by independent sub-agents that knew nothing of the checker, in nine rounds (benign80/, benign80b/, benign80c/, benign80d/, benign80e/, benign80f/, benign80g/, benign80h/, benign80i/: inverted conditions with swapped branches, if/else chains turned into switches or early returns, extracted and inlined helpers and locals, range loops for counting loops, renamed receivers and locals, reordered independent statements, loops over written-out tables, clamps as min/max, closures as method values) and 40 built-in edits (renamed locals and receivers, commuted operands, a < b+1 for a <= b, extracted locals, reordered independent statements, reworded messages, an added helper, a deferred unlock in a closure, reordered YAML keys) applied through the overlay: none of the property's rules may report a violation, lose an anchor, fall under its floor or leave more than one instance in ten undecided (what `check` fails on); instances left undecided within that bound are counted separately. Measures the checker only.",
 		"total": len(results), "silent": cnt["silent"], "undecided_but_passing": cnt["undecided"], "alarm": cnt["alarm"], "stale": cnt["stale"], "broken": cnt["broken"],
 	}
 	if len(alarms) > 0 {
